@@ -24,7 +24,7 @@ CLAIMS = {
              "(independent re-implementation) Closed.simulate runs whole simulations from the specification alone (data, calibration factors, parsed functions, limits, aggregations, transfers, initial state); "
              "simulate_is_process / closed_total / closed_nonneg / closed_jempty / evalPars_fixpoint / evalPars_clipped / evalPars_static / simulateN_prefix are proved for every specification and run length, "
              "and every stock row, link flow and parameter value of generated models is compared with it at every time index.",
-        note="float rounding of start+k*dt vs numpy.linspace is measured (1e-9), not proved. Closed loop: programs, derivative parameters, skip windows, several population types and transcendental functions are outside Closed.simulate (counted, not compared); exact rationals are cut at a bit budget and the computed prefix is compared.",
+        note="float rounding of start+k*dt vs numpy.linspace is measured (1e-9), not proved. Closed loop: scenario skip windows, derivative parameters and several population types are inside Closed.simulate (closed_skip_uses_data, closed_before_window_unchanged, closed_derivative_step/_run/_constant/_linear); programs are in ClosedProg (C13/C09); a derivative parameter with a skip window, transcendental functions and keyrings over 24 rows are outside (counted, not compared); exact rationals are cut at a bit budget and the computed prefix is compared.",
         design="8.C03"),
     "C06": dict(
         technique="Lean 4 theorems about the TimeSeries interpolation model (Atomica.Series) and a decision-logic model of the parameter pipeline (Atomica.Params) + correspondence with TimeSeries.interpolate/insert (mode A) and with every stored parameter value of real runs (mode C)",
